@@ -84,6 +84,37 @@ fn random_location(rng: &mut Rng) -> String {
     s
 }
 
+/// a string close to `cur` (≤ 213 bytes)
+fn related_location(rng: &mut Rng, cur: &str) -> String {
+    let mut v = match rng.below(9) {
+        0 => cur.to_string(),
+        1 => cur.replacen('/', "//", 1),
+        2 => format!("./{}", cur),
+        3 => format!("{}/", cur),
+        4 => format!("{}/.", cur),
+        5 => cur.replacen('/', "/./", 1),
+        6 => cur.to_uppercase(),
+        7 => {
+            let mut c = cur.to_string();
+            c.pop();
+            c
+        }
+        _ => format!("{} ", cur),
+    };
+    if v == cur && rng.chance(1, 2) {
+        // no '/' to play with: double a separator in front
+        v = format!("a//{}", cur);
+        if rng.chance(1, 2) {
+            return v;
+        }
+        v = format!("a/{}", cur);
+    }
+    while v.len() > 213 {
+        v.pop();
+    }
+    v
+}
+
 fn manifest_view(bytes: &[u8], m: &PackAt) -> Result<(Vec<String>, bool), String> {
     let v = bytes[m.origin..m.origin + m.size].to_vec();
     let mp = jbk::reader::ManifestPack::new(v.into()).map_err(|e| format!("err:{}", util::err_kind(&e)))?;
@@ -125,7 +156,21 @@ fn one_history(ctx: &mut Ctx, case: u64, rng: &mut Rng, path: &Path, label: &str
         } else {
             blocks[rng.below(blocks.len() as u64) as usize].0
         };
-        let loc = random_location(rng);
+        // the new string: unrelated to the recorded one, or a near miss of it (same string, same path
+        // spelt differently, a prefix, an extension, another case) — "changes only that location" and
+        // "the new location is what is read back" are about strings, not about what they denote
+        let current: Option<String> = blocks.iter().find(|(u, _)| *u == uuid_bytes).and_then(|(_, bo)| {
+            let l = before[bo + 38] as usize;
+            String::from_utf8(before[bo + 39..bo + 39 + l].to_vec()).ok()
+        });
+        let loc = match current {
+            Some(cur) if rng.chance(2, 5) => {
+                let v = related_location(rng, &cur);
+                ctx.count(if v == cur { "loc:same-as-recorded" } else { "loc:near-miss-of-recorded" });
+                v
+            }
+            _ => random_location(rng),
+        };
         let before_path = ctx.work.join(format!("c12-{}-{}-before", case, step));
         std::fs::write(&before_path, &before).unwrap();
         let uuid = uuid::Uuid::from_bytes(uuid_bytes);
